@@ -102,8 +102,11 @@ bucket_toBytes(PyObject *oself)
   items = PyBytes_FromStringAndSize(NULL, len*8);
   if (items == NULL)
     goto err;
-  memcpy(PyBytes_AS_STRING(items),       self->keys,   len*2);
-  memcpy(PyBytes_AS_STRING(items)+len*2, self->values, len*6);
+  if (len > 0)  /* (an empty bucket has no vectors: memcpy(.., NULL, 0)) */
+    {
+      memcpy(PyBytes_AS_STRING(items),       self->keys,   len*2);
+      memcpy(PyBytes_AS_STRING(items)+len*2, self->values, len*6);
+    }
 
   PER_UNUSE(self);
   return items;
@@ -150,8 +153,11 @@ bucket_fromBytes(PyObject *oself, PyObject *state)
     self->size = len;
   }
 
-  memcpy(self->keys,   PyBytes_AS_STRING(state),       len*2);
-  memcpy(self->values, PyBytes_AS_STRING(state)+len*2, len*6);
+  if (len > 0)  /* (a fresh bucket has no vectors: memcpy(NULL, .., 0)) */
+    {
+      memcpy(self->keys,   PyBytes_AS_STRING(state),       len*2);
+      memcpy(self->values, PyBytes_AS_STRING(state)+len*2, len*6);
+    }
 
   self->len = len;
 
